@@ -36,6 +36,8 @@ func checkC20(r *Run) propMeta {
 	checkHeaderHashRaw(r, p, decls)
 	checkPerGraphResolver(r, p)
 	checkStrictDocumentDecoding(r, p, nil, cg)
+	checkManifestUniqueEntries(r, p)
+	r.Floor("C20-R7-manifest-unique-entries", 2)
 	r.Floor("C20-R1-verify-before-mutate", 6)
 	r.Floor("C20-R2-path-taint", 3)
 	r.Floor("C20-R3-regular-only", 4)
